@@ -983,11 +983,21 @@ func (c *c20run) assignments(textSyms []string, nRandom int) [][]string {
 	return out
 }
 
+// newRng(seed) and newRng(seed+1) are the same splitmix stream shifted by one draw, and the
+// generators here consume a data-dependent number of draws per query, so neighbouring seeds
+// re-synchronise after a few hundred queries.  Scatter the seed first.
+func c20mixSeed(seed int64) int64 {
+	z := uint64(seed) + 0x5851F42D4C957F2D
+	z = (z ^ (z >> 33)) * 0xFF51AFD7ED558CCD
+	z = (z ^ (z >> 33)) * 0xC4CEB9FE1A85EC53
+	return int64(z ^ (z >> 33))
+}
+
 func runC20(o *opts) error {
 	logrus.SetOutput(io.Discard)
 	c := &c20run{
 		cases: newLineWriter(o.out, "cases.txt"), impl: newLineWriter(o.out, "impl.txt"), oracle: newLineWriter(o.out, "oracle.txt"),
-		kinds: map[string]int{}, stats: map[string]int{}, r: newRng(o.seed), randomEval: 6,
+		kinds: map[string]int{}, stats: map[string]int{}, r: newRng(c20mixSeed(o.seed)), randomEval: 6,
 	}
 	defer func() {
 		c.cases.close()
